@@ -1,10 +1,16 @@
-(* Extraction of the executable model to OCaml.  ExtrOcamlBasic only: bool, option, unit, prod,
-   list, sumbool map to OCaml's; Z, positive, N, nat, Q stay as extracted inductives.
-   No Extract Constant. *)
+(* Extraction of the executable model to OCaml.
+   ExtrOcamlBasic: bool, option, unit, prod, list, sumbool map to OCaml's.
+   ExtrOcamlNatInt (standard library): nat is extracted to OCaml's 63-bit int with its arithmetic
+   (Extract Inductive nat => int; Extract Constant for Nat.add/mul/sub/div/modulo/eqb/leb/ltb/max/min/pred
+   and the Init.Nat / PeanoNat aliases, exactly as that library file declares them).  This is sound as
+   long as no nat exceeds 2^62: every nat in the model is a list length, a variable/propagator index,
+   a stack depth or recursion fuel (at most (domain sizes + 1) * (#propagators + 1)), far below that.
+   Z, positive, N, Q stay as extracted inductives.  No Extract Constant of our own. *)
 Require Import ExtrOcamlBasic.
+Require Import ExtrOcamlNatInt.
 Require Import Selen.Model.Prelude Selen.Model.SparseSet Selen.Model.SetSpec.
 Require Import Selen.Model.Dom Selen.Model.Views Selen.Model.PropDefs Selen.Model.Props.Basic Selen.Model.Props.LinInt Selen.Model.Propagate Selen.Model.Search.
-Require Import Selen.Model.LP.
+Require Import Selen.Model.LP Selen.Model.Limits.
 Extraction Language OCaml.
 Set Extraction AccessOpaque.
 Cd "Extract".
@@ -16,5 +22,6 @@ Extraction "selen_model.ml"
   mk_add mk_sub mk_leq mk_lt mk_geq mk_gt mk_eq mk_neq_noop mk_sum
   all_zero mk_lin_eq mk_lin_le mk_lin_ne mk_lin_eq_reif mk_lin_le_reif mk_lin_ne_reif
   fifo lcg_pick propagate prop_fuel agenda_with search enumerate minimize maximize solve
+  solve_lim minimize_lim enumerate_lim never from_check
   mkLP lp_wf feasible objective check_opt check_infeasible feasible_tol q_close_rel lp_solve f64_to_Q qdot lp_nvars needs_phase1.
 Cd "..".
